@@ -250,7 +250,10 @@ pub fn worker(e: &dyn DynEngine, o: WorkerOpts) -> i32 {
     for idx in o.from..o.to {
         if (idx - o.from) % hb == 0 {
             let _ = writeln!(out, "H {idx}");
-            let _ = out.flush();
+            if out.flush().is_err() {
+                // the parent is gone: nobody reads the results
+                return 3;
+            }
         }
         let want = sum.samples.len() < 3 && (idx - o.from) % 7 == 0;
         let rec = e.run_idx(o.seed, idx, o.tier, want);
@@ -290,7 +293,13 @@ pub fn worker(e: &dyn DynEngine, o: WorkerOpts) -> i32 {
 // Parent side
 
 fn self_exe() -> PathBuf {
-    std::env::current_exe().expect("current_exe")
+    // if the binary was rebuilt while this process runs, Linux reports `<path> (deleted)`;
+    // the new binary lives at the same path
+    let p = std::env::current_exe().expect("current_exe");
+    match p.to_str().and_then(|s| s.strip_suffix(" (deleted)")) {
+        Some(s) => PathBuf::from(s),
+        None => p,
+    }
 }
 
 fn base_command(perturb: u32) -> Command {
